@@ -176,6 +176,46 @@ def work(item):
     # ---- 5. two-step form
     ps = h.run('h_prepare', [I(d), Buf('h', hv), D(t1), Buf('buf', n=2 * npairs)])
     exstats.append(h.last_ex.stats)
+    if len(ps) > 1 and all(p_.status == 'ok' and p_.ret == 0 for p_ in ps):
+        # PrepareEvolve branches on its arguments: the generic path is decided as usual, every special path by a direct query on a buffer
+        # that held arbitrary values before the call
+        gen = [p_ for p_ in ps if solver.check(p_.pc + [T.fcmp('oeq', t1, Fraction(37, 100))] + [T.fcmp('oeq', hv[k], Fraction(3 + k, 17)) for k in diag_indices(d)]) == 'sat']
+        stale = sym_vec('stale', 2 * npairs)
+        ps_st = h.run('h_prepare', [I(d), Buf('h', hv), D(t1), Buf('buf', stale)])
+        exstats.append(h.last_ex.stats)
+        for p_ in ps_st:
+            if p_.status != 'ok' or p_.ret != 0 or (gen and solver.check(p_.pc + gen[0].pc) == 'sat' and len(p_.pc) == len(gen[0].pc) and all(x is y for x, y in zip(p_.pc, gen[0].pc))):
+                continue
+            bufp = p_.out('buf')
+            pf_ = h.run('h_fast', [I(d), Buf('a', a), Buf('buf', bufp), Buf('o', n=n)])
+            exstats.append(h.last_ex.stats)
+            if len(pf_) != 1 or pf_[0].status != 'ok' or O1 is None:
+                out['broken'].append('h_fast on a special path of PrepareEvolve d=%d' % d)
+                continue
+            of_ = pf_[0].out('o')
+            conv = S.Conv('real')
+            lem = []
+            for at in T.atoms_of(list(of_) + list(O1), ('sin', 'cos')):
+                u = conv.conv(at.args[0]) if isinstance(at.args[0], Term) else conv.rconst(at.args[0])
+                lem.append(z3.Implies(u == 0, conv.conv(at) == (0 if at.op == 'sin' else 1)))
+            tolz = conv.rconst(TOL)
+            viol = []
+            for k in range(n):
+                x_ = conv.conv(of_[k]) if isinstance(of_[k], Term) else conv.rconst(of_[k] if of_[k] is not None else 0)
+                y_ = conv.conv(O1[k]) if isinstance(O1[k], Term) else conv.rconst(O1[k])
+                viol.append(z3.Or(x_ - y_ > tolz, y_ - x_ > tolz))
+            box = [z3.And(v_ >= -1, v_ <= 1) for v_ in conv.vars.values() if z3.is_real(v_)]
+            r_, m_, _ = solver.check(p_.pc, conv=conv, extra=lem + box + [z3.Or(viol)], want_model=True,
+                                     label='PrepareEvolve special path (%s) d=%d: two-step form on a buffer with arbitrary previous contents = direct form' % (' & '.join(T.show(c_, 3) for c_ in p_.pc)[:80], d))
+            if r_ == 'sat':
+                names = ['a%d' % k for k in range(n)] + ['h%d' % k for k in diag_indices(d)] + ['t1'] + ['stale%d' % k for k in range(2 * npairs)]
+                dec.candidate('twostep-special:d=%d' % d, 'on the branch %s of PrepareEvolve the two-step form applied to a previously used buffer differs from A.Evolve(H,t)' % ' & '.join(T.show(c_, 3) for c_ in p_.pc)[:120],
+                              kind='twostep-special', d=d, input={nm_: frac_str(S.model_value(m_, conv, nm_)) for nm_ in names if nm_ in conv.vars})
+            elif r_ == 'unsat':
+                dec.holds('PrepareEvolve special path d=%d agrees with the direct form on a reused buffer' % d)
+            else:
+                out['undecided'].append('PrepareEvolve special path d=%d' % d)
+        ps = gen[:1] if gen else ps
     if len(ps) != 1 or ps[0].status != 'ok' or ps[0].ret != 0:
         out['broken'].append('h_prepare d=%d: %r' % (d, [(p.status, p.ret, p.info) for p in ps]))
     else:
@@ -261,6 +301,14 @@ def replay(chk, h, c):
         elif kind == 'zero':
             ret, o = h.native('h_evolve', [I(d), Buf('a', av), Buf('h', hv), D(0.0), Buf('o', n=n)])
             worst = max(worst, np.abs(np.array(o['o']) - av).max())
+        elif kind == 'twostep-special':
+            st_ = [inp.get('stale%d' % k, 0.3) for k in range(d * (d - 1))]
+            ret, ob = h.native('h_prepare', [I(d), Buf('h', hv), D(t1), Buf('buf', st_)])
+            ret, o = h.native('h_fast', [I(d), Buf('a', av), Buf('buf', ob['buf']), Buf('o', [np.nan] * n)])
+            worst = max(worst, np.abs(np.array(o['o']) - o1).max())
+            if np.isnan(np.array(o['o'])).any():
+                return True, float('inf')
+            break
         elif kind == 'inplace':
             ret, ob = h.native('h_prepare', [I(d), Buf('h', hv), D(t1), Buf('buf', [np.nan] * (d * (d - 1)))])
             ret, o = h.native('h_inplace', [I(c['mode']), I(d), Buf('a', av), Buf('h', hv), D(t1), Buf('buf', ob['buf'])])
